@@ -24,6 +24,10 @@ func aliasCols(r *rng) []colDesc {
 	if r.chance(1, 2) {
 		cols = append(cols, colDesc{name: "p", isSub: true, sub: []colDesc{{name: "zz", format: "auto", ty: "none"}, {name: "aa", format: "auto", ty: "none"}}})
 	}
+	if r.chance(1, 3) {
+		// a sub-row inside a sub-row: what is two levels down is reached through two containers
+		cols = append(cols, colDesc{name: "h", isSub: true, sub: []colDesc{{name: "o", isSub: true, sub: []colDesc{{name: "n", format: "auto", ty: "none"}, {name: "m", format: "string", ty: "none"}}}, {name: "x", format: "auto", ty: "none"}}})
+	}
 	for _, f := range fmtNames {
 		if r.chance(1, 3) {
 			cols = append(cols, colDesc{name: "c_" + f, format: f, ty: pick(r, []string{"none", "none", "int", "str", "f64", "bytes", "i8"})})
@@ -42,6 +46,7 @@ func genC15(cw *caseWriter, seed uint64, tier string) {
 		// another object for a key that may already hold one (in this row, or in the row it was cloned from)
 		`{"new":{"q":2,"z":[1]},"p":{"zz":5,"k":{"d":1}}}`, `{"new":{"other":true}}`,
 		// rejected after members were stored: a later column fails to convert, truncated, trailing content
+		`{"h":{"o":{"n":1,"m":"t"},"x":2},"a":4}`, `{"h":{"o":{"m":5}}}`,
 		`{"s":"kept?","new":[1],"a":"x"}`, `{"b":"AQI=","extra":1`, `{"a":3,"s":"u"} trailing`, `{"s":"w","b":"!notbase64"}`}
 	keys := []string{"a", "b", "s", "p", "new", "c_string", "c_numeric", ""}
 	vals := []func() interface{}{func() interface{} { return 5 }, func() interface{} { return "v" }, func() interface{} { return nil }, func() interface{} { return []byte{9} },
@@ -73,7 +78,7 @@ func genC15(cw *caseWriter, seed uint64, tier string) {
 				}
 				return r.intn(len(rows))
 			}
-			k := r.intn(15)
+			k := r.intn(16)
 			if len(rows) == 0 && k > 4 && k < 11 || len(rows) == 0 && k > 12 {
 				k = 0
 			}
@@ -95,11 +100,19 @@ func genC15(cw *caseWriter, seed uint64, tier string) {
 						break
 					}
 					i := pick(r, cand)
-					path := pick(r, []string{"p.zz", "p.aa", "new.q", "p", "a", "p.zz.x", "s"})
+					path := pick(r, []string{"p.zz", "p.aa", "new.q", "p", "a", "p.zz.x", "s", "h.o.n", "h.o.m", "h.x", "h.o", "h.o.new", "new.zz", "p.new"})
 					v := pick(r, vals)()
 					extForValue(v, ext)
 					op = fmt.Sprintf("iap %d K:%s %s", i, hx([]byte(path)), dynStr(v))
 					if err := rows[i].ImportAtPath(path, v); err != nil {
+						errc = errClass(err)
+					}
+				case 15:
+					// one row handed to another row's Import (refused today; were it accepted, the two rows must not
+					// end up holding the same cells)
+					i, j := pickRow(), pickRow()
+					op = fmt.Sprintf("irow %d %d", i, j)
+					if err := rows[i].Import(rows[j]); err != nil {
 						errc = errClass(err)
 					}
 				case 11, 12:
